@@ -99,6 +99,12 @@ class GridKernel(Kernel):
         self._clear_cache()
         return self
 
+    def _kronecker_order(self, covars):
+        # KroneckerProductLinearOperator(A, B) is A kron B: the LAST factor varies fastest.
+        # `full_grid` (create_data_from_grid) enumerates the grid with the first dimension varying fastest, whereas
+        # the interpolation indices (Interpolation.interpolate) enumerate it with the first dimension varying slowest.
+        return covars if self.interpolation_mode else covars[::-1]
+
     @property
     def is_ragged(self):
         return not all(self.grid[0].size() == proj.size() for proj in self.grid)
@@ -154,8 +160,7 @@ class GridKernel(Kernel):
                     covars = covars.squeeze(-2)  # Get rid of the dimension corresponding to the first point
                     # Un-pad the grid
                     covars = [ToeplitzLinearOperator(covars[..., i, : proj.size(-1)]) for i, proj in enumerate(grid)]
-                    # Due to legacy reasons, KroneckerProductLinearOperator(A, B, C) is actually (C Kron B Kron A)
-                    covar = KroneckerProductLinearOperator(*covars[::-1])
+                    covar = KroneckerProductLinearOperator(*self._kronecker_order(covars))
             else:
                 full_grid = torch.stack(padded_grid, dim=-1)
                 with warnings.catch_warnings():  # Hide the GPyTorch 2.0 deprecation warning
@@ -166,7 +171,7 @@ class GridKernel(Kernel):
                     covar = covars
                 else:
                     covars = [covars[..., i, : proj.size(-1), : proj.size(-1)] for i, proj in enumerate(self.grid)]
-                    covar = KroneckerProductLinearOperator(*covars[::-1])
+                    covar = KroneckerProductLinearOperator(*self._kronecker_order(covars))
 
             if not self.training:
                 self._cached_kernel_mat = covar
